@@ -472,8 +472,10 @@ func reifyValue(
 		}
 		defer leave()
 
+		// (with the validators of the field's tag, as for a map that is
+		// updated in place)
 		newMap := reflect.MakeMap(baseType)
-		if err := reifyInto(opts.opts, newMap, sub); err != nil {
+		if err := reifyMap(opts.opts, newMap, sub, opts.validators); err != nil {
 			return reflect.Value{}, err
 		}
 		return newMap, nil
